@@ -150,3 +150,19 @@ def frame_grow_in_task(f, fail_on=None):
     g['grown'] = 7
     g['grown2'] = g.index.values if False else 8
     return g
+
+
+def probe_bus(v, bus=None, labels=()):
+    '''Reads frames of one shared, lazily loaded Bus from inside a pool task.'''
+    d = digest(v)
+    lab = labels[len(d) % len(labels)]
+    f = bus[lab]
+    return (d, str(lab), tuple(f.shape), digest(f.iloc[0]) if f.shape[0] else '')
+
+
+def sample_in_task(v, n=2, seed=3):
+    '''Seeded sampling inside a task: the draw must not depend on what other threads do.'''
+    import static_frame as sf
+    d = digest(v)
+    s = sf.Series(range(20)).sample(n + len(d) % 3, seed=seed + len(d) % 2)
+    return (d, tuple(s.index.values.tolist()))
